@@ -52,7 +52,11 @@ theorem step_ext (hinv : Inv sys s) (t : Tid) : Ext s (step sys s t) := by
       cases hl : lcLookup s.loaderCache th.ty with
       | some r => exact ext_heap_only hth rfl (by simp [hp, Phase.isClosed]) ⟨[], by simp⟩ rfl
       | none => exact ext_heap_only hth rfl (by simp [hp, Phase.isClosed]) ⟨[], by simp⟩ rfl
-    | put => exact ext_heap_only hth rfl (by simp [hp, Phase.isClosed]) ⟨[], by simp [stepPut]⟩ rfl
+    | put =>
+      simp only
+      split
+      · exact ext_heap_only hth rfl (by simp [hp, Phase.isClosed]) ⟨[], by simp [stepRaise]⟩ rfl
+      · exact ext_heap_only hth rfl (by simp [hp, Phase.isClosed]) ⟨[], by simp [stepPut]⟩ rfl
     | call r => exact ext_heap_only hth rfl (by simp [Phase.isClosed]) ⟨[], by simp [stepCall]⟩ rfl
     | done => exact Ext.refl s
     | run pc sub =>
